@@ -186,7 +186,11 @@ func (c *ShipConnection) CloseConnection(safe bool, code int, reason string) {
 				},
 			}
 
-			_ = c.sendShipModel(model.MsgTypeEnd, closeMessage)
+			// do not use sendShipModel: if the data connection is found closed it would
+			// invoke CloseConnection again, which never returns from within shutdownOnce
+			if shipMsg, err := c.shipMessageData(model.MsgTypeEnd, closeMessage); err == nil {
+				_ = c.dataWriter.WriteMessageToWebsocketConnection(shipMsg)
+			}
 
 			go func() {
 				// wait a bit to let it send
@@ -415,6 +419,11 @@ func (c *ShipConnection) shipMessage(typ byte, model interface{}) ([]byte, error
 		return nil, err
 	}
 
+	return c.shipMessageData(typ, model)
+}
+
+// transform a SHIP model into EEBUS specific JSON without touching the connection
+func (c *ShipConnection) shipMessageData(typ byte, model interface{}) ([]byte, error) {
 	if model == nil {
 		return nil, errors.New("invalid data")
 	}
